@@ -302,6 +302,13 @@ def replay_file(pid, path):
             say(f"VIOLATION property={pid} replay={path}")
             return 1
         return 0
+    if line[1] == "tc":
+        import tc_props
+        bad = tc_props.replay_tc(pid, line)
+        if bad:
+            say(f"VIOLATION property={pid} replay={path}")
+            return 1
+        return 0
     if line[1] == "helper":
         import c04
         return c04.replay_generated(pid, path)
